@@ -22,6 +22,8 @@ fn table() -> Vec<Prop> {
         Prop { id: "C19", level: "exploration", run: props::c19::run, replay: props::c19::replay },
         Prop { id: "C07", level: "exploration", run: props::c07::run, replay: props::c07::replay },
         Prop { id: "C08", level: "exploration", run: props::c08::run, replay: props::c08::replay },
+        Prop { id: "C09", level: "exploration", run: props::c09::run, replay: props::c09::replay },
+        Prop { id: "C10", level: "exploration", run: props::c10::run, replay: props::c10::replay },
         Prop { id: "C13", level: "exploration", run: props::c13::run, replay: props::c13::replay },
         Prop { id: "C14", level: "exploration", run: props::c14::run, replay: props::c14::replay },
         Prop { id: "C15", level: "exploration", run: props::c15::run, replay: props::c15::replay },
